@@ -108,13 +108,33 @@ type TextStyle struct {
 // If ignoreSpacing is true, 'word-spacing' and 'letter-spacing' are
 // not queried from [style]
 func NewTextStyle(style pr.StyleAccessor, ignoreSpacing bool) *TextStyle {
+	out := newTextStyleNoLengths(style)
+
+	out.FontDescription.Size = pr.Fl(style.GetFontSize().Value)
+	out.HyphenateLimitZone = newHyphenateZone(style.GetHyphenateLimitZone())
+
+	if !ignoreSpacing {
+		out.WordSpacing = pr.Fl(style.GetWordSpacing().Value)
+		if ls := style.GetLetterSpacing(); ls.S != "normal" {
+			out.LetterSpacing = pr.Fl(ls.Value)
+		}
+	}
+
+	out.TabSize = newTabSize(style.GetTabSize())
+
+	return out
+}
+
+// newTextStyleNoLengths builds a text style without querying the properties
+// which are lengths (font-size, tab-size, hyphenate-limit-zone, word-spacing, letter-spacing) :
+// it may thus be used to resolve the ex and ch units of these very properties.
+func newTextStyleNoLengths(style pr.StyleAccessor) *TextStyle {
 	var out TextStyle
 
 	out.FontDescription.Family = style.GetFontFamily()
 	out.FontDescription.Style = newFontStyle(style.GetFontStyle())
 	out.FontDescription.Weight = newFontWeight(style.GetFontWeight())
 	out.FontDescription.Stretch = newFontStretch(style.GetFontStretch())
-	out.FontDescription.Size = pr.Fl(style.GetFontSize().Value)
 	out.FontDescription.VariationSettings = newFontVariationSettings(style.GetFontVariationSettings())
 
 	out.FontLanguageOverride = newFontLanguageOverrride(style.GetFontLanguageOverride())
@@ -129,16 +149,6 @@ func NewTextStyle(style pr.StyleAccessor, ignoreSpacing bool) *TextStyle {
 	out.Hyphens = newHyphens(style.GetHyphens())
 	out.HyphenateLimitChars = style.GetHyphenateLimitChars()
 	out.HyphenateCharacter = string(style.GetHyphenateCharacter())
-	out.HyphenateLimitZone = newHyphenateZone(style.GetHyphenateLimitZone())
-
-	if !ignoreSpacing {
-		out.WordSpacing = pr.Fl(style.GetWordSpacing().Value)
-		if ls := style.GetLetterSpacing(); ls.S != "normal" {
-			out.LetterSpacing = pr.Fl(ls.Value)
-		}
-	}
-
-	out.TabSize = newTabSize(style.GetTabSize())
 
 	out.FontFeatures = getFontFeatures(style)
 
